@@ -99,15 +99,40 @@ def new_dict(B, st, kt, vt) -> VDict:
 
 def dict_values_list(B, st, d) -> VList:
     eng = B.eng
+    mkey = ("dvals", str(d.ref), tuple(sorted((str(k), v.get_id()) for k, v in st.heap.items()
+                                              if k[0] in ("DKEYS", "DVAL", "LEN", "ELT", "DHAS"))))
+    memo = st.ghost.get("dvals_memo", {})
+    if mkey in memo:
+        return memo[mkey]
+    res = _dict_values_list(B, st, d)
+    memo = dict(st.ghost.get("dvals_memo", {}))
+    memo[mkey] = res
+    mkey2 = ("dvals", str(d.ref), tuple(sorted((str(k), v.get_id()) for k, v in st.heap.items()
+                                               if k[0] in ("DKEYS", "DVAL", "LEN", "ELT", "DHAS"))))
+    memo[mkey2] = res
+    st.ghost = dict(st.ghost)
+    st.ghost["dvals_memo"] = memo
+    return res
+
+
+def _dict_values_list(B, st, d) -> VList:
+    """d.values() as a list: its content is the array  k |-> val[keys[k]]  (a lambda term determined by the
+    dict's maps, so that two views of an unchanged dict are the same term)."""
+    eng = B.eng
     keys = dict_keys_list(B, st, d)
     n = eng.list_len(st, keys)
     res = eng.new_list(st, d.vt, n)
     k = z3.Int("dv!")
-    karr = z3.Select(st.eltmap(_ks(d)), keys.ref)
-    varr = z3.Select(st.dval(_ks(d), _vs(d)), d.ref)
-    dst = z3.Select(st.eltmap(_vs(d)), res.ref)
-    st.assume(z3.ForAll([k], z3.Implies(z3.And(k >= 0, k < n), z3.Select(dst, k) == z3.Select(varr, z3.Select(karr, k))),
-                        patterns=[z3.Select(dst, k)]))
+    karr = eng.list_arr(st, keys)
+    varr = z3.simplify(z3.Select(st.dval(_ks(d), _vs(d)), d.ref))
+    es = _vs(d)
+    fn = z3.Function(f"DVALS_{sort_name(_ks(d))}_{sort_name(es)}", varr.sort(), karr.sort(), z3.ArraySort(z3.IntSort(), es))
+    if not getattr(B, "_dvals_ax_" + fn.name(), False):
+        setattr(B, "_dvals_ax_" + fn.name(), True)
+        va, ka = z3.Const("dva!", varr.sort()), z3.Const("dka!", karr.sort())
+        eng.axioms.append(FA([va, ka, k], z3.Select(fn(va, ka), k) == z3.Select(va, z3.Select(ka, k)),
+                             patterns=[z3.Select(fn(va, ka), k)]), keys={fn.name()})
+    st.heap[("ELT", sort_name(es))] = z3.Store(st.eltmap(es), res.ref, fn(varr, karr))
     return res
 
 
